@@ -115,7 +115,8 @@ PROPS["C10"] = {
                                 "non-canonical keys written directly into ResponseHeader are emitted with an empty value (limitation theorem noncanonical_config_key_emitted)"],
 }
 PROPS["C11"] = {
-    "theorems": ["Hs.client_accepts_iff", "Hs.client_reject_closes", "Hs.selected_subprotocol", "Hs.request_headers"],
+    "modules": ["Gws.Props.C11", "Gws.Props.SourceShapeConn"],
+    "theorems": ["SourceShape.handshake_entry_closes_on_error", "Hs.client_accepts_iff", "Hs.client_reject_closes", "Hs.selected_subprotocol", "Hs.request_headers"],
     "suites": ["hs-client", "faults:hs-client"],
     "trusted": HS_TRUSTED,
     "clauses_without_theorem": ["the key is fresh, random and 16 bytes (observed: 1000 handshakes, all distinct)", "return within the handshake time-out even if the server never answers (observed with short time-outs)",
@@ -141,7 +142,7 @@ PROPS["C05"] = {
     "theorems": ["Writer.genHeader_decodes", "Writer.genFrame_decodes", "Writer.genFrame_wire", "Writer.genFrame_decodes_compressed", "Writer.stripTail_restore",
                  "Writer.genFrame_inflates", "Writer.controlFrame_decodes", "Writer.genFrame_rejects", "Writer.doWrite_rejected", "Writer.doWrite_window",
                  "Writer.writeFile_frames_plain", "Writer.writeFile_frames_compressed", "Writer.writeFile_frames", "Writer.writeFile_inflates", "Writer.writeFile_empty_reader"],
-    "suites": ["write"],
+    "suites": ["write", "faults:file-gap"],
     "trusted": ["the compressor's output is a parameter: the theorems hold for every output and every way it is cut into Write calls; that it inflates to the payload is the Codec law hypotheses hL1/hL2 (klauspost conformance, sampled: every compressed frame of the suite is inflated by the Lean inflater against the unbounded RFC 7692 history with max distance <= 2^bits)",
                 "bytes.Buffer / copy semantics as modelled (goCopy back-fill); the mask key source is an input",
                 "binary.BigEndian / LittleEndian as modelled"],
@@ -159,13 +160,13 @@ PROPS["C08"] = {
     "modules": ["Gws.Props.C08", "Gws.Props.SourceShapeConn"],
     "theorems": ["SourceShape.conn_sections", "Conc.wire_is_whole_frames", "Conc.partial_only_by_failed_write", "Conc.file_frames_contiguous", "Conc.data_frames_owned_by_writers",
                  "Conc.success_iff_one_message", "Conc.content_rejected_no_bytes"],
-    "suites": ["conn", "racy"],
+    "suites": ["conn", "racy", "faults:file-gap"],
     "trusted": CONC_TRUSTED + ["'free of data races' is a statement about the Go memory model that no functional model expresses: validated by the race detector on the racy suite (not part of the proof)"],
     "clauses_without_theorem": ["library-internal shared state touched by writers is free of data races (race detector on concurrent scenarios: validation only)"],
 }
 PROPS["C09"] = {
     "modules": ["Gws.Props.C09", "Gws.Props.SourceShapeConn"],
-    "theorems": ["SourceShape.conn_sections", "Conc.transport_closed_implies_closed", "Conc.onclose_once_nonnil", "Conc.no_deadlock", "Conc.bounded_run", "Conc.acts_are_bounded",
+    "theorems": ["SourceShape.conn_sections", "SourceShape.handshake_entry_closes_on_error", "Conc.transport_closed_implies_closed", "Conc.onclose_once_nonnil", "Conc.no_deadlock", "Conc.bounded_run", "Conc.acts_are_bounded",
                  "Conc.teardown_complete", "Conc.closer_blocked_behind_stalled_writer"],
     "suites": ["conn", "faults"],
     "trusted": CONC_TRUSTED + ["handshake fault paths, goroutine census, wall-clock bounds and real socket behaviour are runtime: observed by the faults suite (fault injected at every transport operation of a scripted session and of both handshakes), not proved"],
